@@ -377,6 +377,29 @@ def _check_state(sc, b, typ, link, fs2, model, victim, history, i, torn, n, jour
                 BP.validate_tree(fs2.tree(copy=False), b['version'])
             except BP.Invalid as ex:
                 return {'sig': 'C06:invalid-bundle-after-crash:%s' % name, 'msg': '%s: %s' % (where, ex)}
+        # first the most natural continuation: the interrupted store is simply repeated (a resumed seed does that)
+        try:
+            Store(b).store(sc['victim'][1])
+        except Exception as ex:
+            return {'sig': 'C06:store-after-restart-raises:%s:%s' % (type(ex).__name__, name),
+                    'msg': '%s: repeating the interrupted store after restart raised %r' % (where, ex)}
+        for k in sc['pool']:
+            kk = _key(k)
+            try:
+                got = Store(b).load(k)
+            except Exception as ex:
+                return {'sig': 'C06:reader-raises:%s:%s' % (type(ex).__name__, name),
+                        'msg': '%s, then the store repeated: reading %r raised %r' % (where, k, ex)}
+            if kk in victim:
+                if got != victim[kk][0]:
+                    return {'sig': 'C06:repeated-store-not-readable:%s' % name,
+                            'msg': '%s: the interrupted store was repeated after restart, but %r returns %s instead of the '
+                                   'stored %s' % (where, k, C.describe(got), C.describe(victim[kk][0]))}
+                observed[kk] = got
+            elif got != observed[kk]:
+                return {'sig': 'C06:store-after-restart-damages-other-tile:%s' % name,
+                        'msg': '%s: repeating the interrupted store changed what %r returns: %s -> %s' % (
+                            where, k, C.describe(observed[kk]), C.describe(got))}
         k0 = sc['victim'][1][0][0]
         targets = [k0]
         others = [k for k in sc['pool'] if _key(k) != _key(k0)]
